@@ -38,6 +38,8 @@ pub proof fn lemma_sval64(v: u64)
 {
     lemma_u64_as_i64(v);
     lemma2_to64();
+    lemma_pow2_step(63);
+    assert(pow2(63) == 0x8000_0000_0000_0000);
 }
 
 /// sign extension to 64 bits followed by the signed reading at 64 bits is the signed reading at the original width
